@@ -163,6 +163,28 @@ pub fn inject(p: &Program, rng: &mut rand_chacha::ChaCha8Rng) -> Vec<Defect> {
                                     (Pat::Var("CYB".into()), Expr::Prim(16, vec![Expr::Var("CYA".into()), Expr::Lit(crate::val::V::int(1))]))],
                                Box::new(Expr::Prim(4, vec![Expr::Var("CYA".into()), p.body.clone()])));
         out.push(Defect { kind: "assign-cycle", ident: "CYA,CYB".into(), program: Program { args: p.args.clone(), helpers: p.helpers.clone(), body: cyc }, where_: "main".into() });
+        // ... and the other shapes of a cycle: a binding that needs itself (nothing else needing it; first, in the middle,
+        // last among independent bindings), three names in a ring, a ring with a tail hanging off it
+        let lit = |k: i64| Expr::Lit(crate::val::V::int(k));
+        let one = || lit(1);
+        let plus = |a: Expr, b: Expr| Expr::Prim(16, vec![a, b]);
+        let var = |n: &str| Expr::Var(n.to_string());
+        let bindv = |n: &str, e: Expr| (Pat::Var(n.to_string()), e);
+        let shapes: Vec<(&str, Vec<(Pat, Expr)>)> = vec![
+            ("self-last", vec![bindv("CYI", one()), bindv("CYS", plus(var("CYS"), var("CYI")))]),
+            ("self-first", vec![bindv("CYS", plus(var("CYS"), one())), bindv("CYI", lit(2))]),
+            ("self-middle", vec![bindv("CYI", one()), bindv("CYS", plus(var("CYS"), one())), bindv("CYJ", plus(var("CYI"), one()))]),
+            ("self-alone", vec![bindv("CYS", plus(var("CYS"), one()))]),
+            ("ring3", vec![bindv("CYA", plus(var("CYC"), one())), bindv("CYB", plus(var("CYA"), one())), bindv("CYC", plus(var("CYB"), one()))]),
+            ("ring-tail", vec![bindv("CYA", plus(var("CYB"), one())), bindv("CYB", plus(var("CYA"), one())), bindv("CYT", plus(var("CYA"), one()))]),
+            ("self-in-pattern", vec![(Pat::Cons(Box::new(Pat::Var("CYS".into())), Box::new(Pat::Var("CYU".into()))), Expr::Prim(4, vec![var("CYU"), one()]))]),
+        ];
+        for (what, bs) in shapes {
+            let used = bs.iter().flat_map(|(p, _)| { let mut v = vec![]; p.names(&mut v); v }).fold(lit(0), |acc, n| plus(acc, Expr::Var(n)));
+            let idents: Vec<String> = bs.iter().flat_map(|(p, _)| { let mut v = vec![]; p.names(&mut v); v }).filter(|n| n.starts_with("CY")).collect();
+            let body = Expr::Assign(bs, Box::new(Expr::Prim(4, vec![used, p.body.clone()])));
+            out.push(Defect { kind: "assign-cycle", ident: idents.join(","), program: Program { args: p.args.clone(), helpers: p.helpers.clone(), body }, where_: what.into() });
+        }
         let dup = Expr::Assign(vec![(Pat::Var("DUP".into()), Expr::Lit(crate::val::V::int(1))), (Pat::Var("DUP".into()), Expr::Lit(crate::val::V::int(2)))],
                                Box::new(Expr::Prim(4, vec![Expr::Var("DUP".into()), p.body.clone()])));
         out.push(Defect { kind: "assign-dup", ident: "DUP".into(), program: Program { args: p.args.clone(), helpers: p.helpers.clone(), body: dup }, where_: "main".into() });
@@ -301,7 +323,7 @@ pub fn drive(args: &HashMap<String, String>) {
         let span = match *kind {
             "unbound" => dsrc.find(ident.as_str()).map(|i| (i + 1, i + 1 + ident.len())),
             "redefine" => dp.helpers.last().and_then(|h| dsrc.rfind(&h.render())).map(|i| (i + 1, i + 1 + dp.helpers.last().unwrap().render().len())),
-            "assign-cycle" | "assign-dup" => dsrc.find("(assign CYA").or_else(|| dsrc.find("(assign DUP")).map(|i| (i + 1, dsrc.len())),
+            "assign-cycle" | "assign-dup" => dsrc.find("(assign CY").or_else(|| dsrc.find("(assign (CY")).or_else(|| dsrc.find("(assign DUP")).or_else(|| dsrc.find("(assign (DUP")).map(|i| (i + 1, dsrc.len())),
             _ => None,
         };
         let loc_inside = match (rd.get("err"), span) {
